@@ -19,7 +19,7 @@ TRUSTED = ["Spec.flowRate / Spec.weight in lean/Summer/Spec/Rates.lean are the r
 ASSUMPTIONS = ["floating-point rounding is not modelled: implementation values are compared with exact rationals at 1e-9 relative"]
 
 def payloads(tier, seed):
-    n = 60 if tier == "quick" else 1200
+    n = 140 if tier == "quick" else 2400
     return [{"seed": seed, "index": i} for i in range(n)]
 
 def search_payloads(tier, seed, diffs):
@@ -27,7 +27,8 @@ def search_payloads(tier, seed, diffs):
 
 def task(W, payload):
     r = random.Random(f"C01:{payload['seed']}:{payload['index']}")
-    prog = Gen(r, Opts()).program()
+    # every second program is forced to carry 2-3 stratifications (adjustment chains across stratifications)
+    prog = Gen(r, Opts(max_strats=3, force_strat=True) if payload["index"] % 2 else Opts()).program()
     S = fresh_session(W)
     out = {"evals": 0, "cases": [], "fails": [], "diffs": [], "feat": dict(prog["meta"]["feat"])}
     if not S.build(prog["build"]):
